@@ -172,6 +172,8 @@ package pubsub
 //@ func (*pubsubTracer).Graft
 //@   property C19
 //@   noframe
+//@   modifies scoreEpoch
+//@   ghost-effect only-that-peer: forall q string :: q != p ==> scoreEpoch[q] == old(scoreEpoch[q])
 //@   loop 1 invariant forwarding: calls(RawTracer.Graft) - old(calls(RawTracer.Graft)) == rangeindex + 1 && rangeindex + 1 <= len(old(t.raw)) && calls(EventTracer.Trace) == old(calls(EventTracer.Trace))
 //@   ensures raw-all: t != nil ==> (calls(RawTracer.Graft) - old(calls(RawTracer.Graft)) == len(old(t.raw)))
 //@   ensures one-event: t != nil ==> (old(t.tracer) != nil ==> calls(EventTracer.Trace) - old(calls(EventTracer.Trace)) == 1)
@@ -184,6 +186,8 @@ package pubsub
 //@ func (*pubsubTracer).Prune
 //@   property C19
 //@   noframe
+//@   modifies scoreEpoch
+//@   ghost-effect only-that-peer: forall q string :: q != p ==> scoreEpoch[q] == old(scoreEpoch[q])
 //@   loop 1 invariant forwarding: calls(RawTracer.Prune) - old(calls(RawTracer.Prune)) == rangeindex + 1 && rangeindex + 1 <= len(old(t.raw)) && calls(EventTracer.Trace) == old(calls(EventTracer.Trace))
 //@   ensures raw-all: t != nil ==> (calls(RawTracer.Prune) - old(calls(RawTracer.Prune)) == len(old(t.raw)))
 //@   ensures one-event: t != nil ==> (old(t.tracer) != nil ==> calls(EventTracer.Trace) - old(calls(EventTracer.Trace)) == 1)
